@@ -68,7 +68,10 @@ def draw_scenario(seed, i, kind=None, real_writers=False):
             ups.append({"status": rng.choice(["fetching", "parsing", "rendering", None]),
                         "progress": rng.choice([None, rng.randrange(0, 101)]),
                         "article": None if rng.random() < 0.3 else "A" * (rng.randrange(20000, 200000) if big else rng.randrange(1, 60)),
-                        "sub": rng.random() < 0.3, "extra": rng.random() < 0.3})
+                        "sub": rng.random() < 0.3, "extra": rng.random() < 0.3,
+                        # a keyword value JSON cannot encode (an exception object, a set): the update fails
+                        # with TypeError; what is published must still be a complete earlier version
+                        "unenc": rng.choice(["exc", "set"]) if rng.random() < 0.12 else None})
         p["updates"] = ups
     elif kind in ("create_zip", "make_zip", "zipbuilder", "mwzip_main"):
         big = rng.random() < 0.2
@@ -179,8 +182,18 @@ class Scenario:
             kw = {}
             if u["extra"]:
                 kw["content_type"] = "application/pdf"
-            target(status=u["status"], progress=u["progress"], article=u["article"], **kw)
-            versions.append(json.dumps(st.status))
+            if u.get("unenc"):
+                kw["detail"] = ValueError("boom") if u["unenc"] == "exc" else {1, 2}
+            try:
+                target(status=u["status"], progress=u["progress"], article=u["article"], **kw)
+            except TypeError:
+                if not u.get("unenc"):
+                    raise
+                # the caller drops the offending value and carries on; nothing was published by this update
+                st.status.pop("detail", None)
+                versions.append(versions[-1] if versions else "null")
+                continue
+            versions.append(json.dumps(st.status, default=repr))
         return {"versions": versions}
 
     # -- zips ------------------------------------------------------------------------
